@@ -153,7 +153,10 @@ def feed (ctx : Ctx) : Recv → List Byte → Recv × List Int
 
 /-! ### legacy receiver gstuff_autorecv_newchar_v1 -/
 
-inductive LSt | l0 | l1 | l2
+/-- `autom->state`: 0 = a marker was the last event (reset, then as 1), 1 = in frame,
+2 = after the escape byte, 3 = hunt for the marker (after `setbuf`, DATA_ERROR, OVERFLOW;
+added by `fix: legacy receiver hunts for the start marker`) -/
+inductive LSt | l0 | l1 | l2 | l3
 deriving DecidableEq, Repr
 
 structure LRecv where
@@ -163,18 +166,24 @@ structure LRecv where
   cap : Nat
 deriving DecidableEq, Repr
 
-def LRecv.init (cap : Nat) : LRecv := ⟨.l0, 0xFF, [], cap⟩
+/-- `gstuff_autorecv_setbuf_v1`: sline_init, reset, `state = 3` -/
+def LRecv.init (cap : Nat) : LRecv := ⟨.l3, 0xFF, [], cap⟩
 def LDATA_ERROR : Int := -3
 
+/-- label `__putchar__` of the legacy receiver: a refused byte ends the frame, `goto __hunt__` -/
 def lputchar (r : LRecv) (c : Byte) : LRecv × Int :=
   if ¬ (r.cap - 1 ≤ r.line.length) then
     ({ r with line := r.line ++ [c], crc := strmStep r.crc c, state := .l1 }, CONTINUE)
-  else ({ r with state := .l0 }, OVERFLOW)
+  else ({ r with state := .l3 }, OVERFLOW)
 
 def lnewchar (r0 : LRecv) (c : Byte) : LRecv × Int :=
-  let r := if r0.state = .l0 then { r0 with crc := 0xFF, line := [], state := .l1 } else r0
+  -- case 3: everything in front of the next marker is skipped; the marker falls through to case 0
+  if r0.state = .l3 ∧ c ≠ legStart then (r0, CONTINUE) else
+  -- case 0: reset, state = 1, fall through to case 1
+  let r := if r0.state = .l0 ∨ r0.state = .l3 then { r0 with crc := 0xFF, line := [], state := .l1 } else r0
   match r.state with
   | .l0 => (r, -4)
+  | .l3 => (r, -4)
   | .l1 =>
     if c = legStart then
       if r.line.isEmpty then (r, CONTINUE)
@@ -185,7 +194,8 @@ def lnewchar (r0 : LRecv) (c : Byte) : LRecv × Int :=
   | .l2 =>
     if c = legStubStart then lputchar r legStart
     else if c = legStubStub then lputchar r legStub
-    else ({ r with state := .l0 }, LDATA_ERROR)
+    else if c = legStart then ({ r with state := .l0 }, LDATA_ERROR)  -- the marker itself opens the next frame
+    else ({ r with state := .l3 }, LDATA_ERROR)                        -- goto __hunt__
 
 def lfeed : LRecv → List Byte → LRecv × List Int
   | r, [] => (r, [])
